@@ -83,13 +83,13 @@ PROPS['C16'] = dict(
 ARMS_NOTE = 'The arms of preprocess_str are verified one by one (rule R-arm); the dispatch loop around them is assumed (A-glue). Callees carry contracts proved in other units (push/merge: pt; Locate::str: getstr; try_into fold: derive) or assumed on their real signature (preprocess_inner, resolve_text_macro_usage, identifier). Grammar invariants (each node has a contiguous leaf inside s, identifiers present) are preconditions.'
 PROPS['C04'] = dict(
     title='conditional compilation',
-    units=['arms'],
+    units=['arms', 'pphelp'],
     shims=['A-glue', 'A-hashmap', 'A-str', 'A-node'],
     design='DESIGN.md 3/C04',
     technique='contract-based deductive verification (Verus) of the verbatim IfdefDirective / IfndefDirective arms against an IEEE 22.6 selection spec function, loop invariant over the `elsif chain',
     level_text='Deductive proof, for every chain length, every define table and every combination of condition outcomes, that on entering `ifdef/`ifndef the arm puts on the skip list the directive keywords, the identifiers and every group except the one IEEE 1800-2017 22.6 selects (first branch whose name is defined, `else if none); table mutations happen only in arms of the same match (un-skipped events).',
     level_note=ARMS_NOTE + ' Two call sites are genuinely wrong for predefined names in `elsif position and are listed as known findings; the clause for chains without predefined `elsif names must verify.',
-    not_covered=['that the event loop honours the skip list for arbitrary nesting (A-glue + C16)', 'token-for-token equality of the surviving text', 'SkipNodes::push/contains themselves'],
+    not_covered=['that the event loop honours the skip list for arbitrary nesting (A-glue + C16)', 'token-for-token equality of the surviving text'],
 )
 PROPS['C05'] = dict(
     title='macro expansion',
@@ -191,7 +191,7 @@ PROPS['C17'] = dict(
 )
 PROPS['C08'] = dict(
     title='totality',
-    units=['pt', 'wrap', 'iter', 'conv', 'derive', 'getstr', 'arms', 'depth', 'bind'],
+    units=['pt', 'wrap', 'iter', 'conv', 'derive', 'getstr', 'arms', 'depth', 'bind', 'pphelp'],
     engines=[dict(module='gvc.engine', args=dict(analyses=('panics', 'faithful', 'nullable')))],
     shims=['A-btree', 'A-str', 'A-path/fs', 'A-node', 'A-vec', 'A-nom', 'A-glue'],
     design='DESIGN.md 3/C08',
